@@ -519,6 +519,48 @@ def pool_oracle(args):
     return None
 
 
+def same_name_oracle(args):
+    """two runs in one interpreter whose noise models carry DIFFERENT user-defined operators under the SAME name, strength and time step:
+    the second run (dephasing-like operator Z on a classical state under a diagonal Hamiltonian / diagonal gates: <Z_i> = 1 in every
+    trajectory, whatever is drawn) must not inherit anything computed for the first"""
+    from qiskit import QuantumCircuit
+
+    from mqt.yaqs import simulator
+    from mqt.yaqs.core.data_structures.networks import MPO, MPS
+    from mqt.yaqs.core.data_structures.noise_model import NoiseModel
+    from mqt.yaqs.core.data_structures.simulation_parameters import AnalogSimParams, Observable, StrongSimParams
+
+    L, kind = 3, args["kind"]
+    plus, minus = np.array([1, 1]) / np.sqrt(2), np.array([1, -1]) / np.sqrt(2)
+    first = np.outer(plus, minus).astype(complex)      # |+><-|: not Hermitian, L^+L = |-><-|
+    second = np.diag([1.0, -1.0]).astype(complex)      # Z: L^+L = 1
+
+    def nm(mat):
+        return NoiseModel([{"name": args.get("name", "custom"), "sites": [i], "strength": 0.2, "matrix": mat.copy()} for i in range(L)])
+
+    def run(mat):
+        if kind == "analog":
+            p = AnalogSimParams([Observable("z", i) for i in range(L)], elapsed_time=0.5, dt=0.1, num_traj=3, order=args.get("order", 2), show_progress=False)
+            simulator.run(MPS(L, state="zeros"), MPO.ising(L, 1.0, 0.0), p, nm(mat), parallel=False)
+        else:
+            qc = QuantumCircuit(L)
+            for _ in range(3):
+                qc.rzz(0.4, 0, 1); qc.rzz(0.3, 1, 2); qc.rz(0.2, 0)  # noqa: E702
+            p = StrongSimParams([Observable("z", i) for i in range(L)], num_traj=3, show_progress=False)
+            simulator.run(MPS(L, state="zeros"), qc, p, nm(mat), parallel=False)
+        return np.array([np.real(np.asarray(o.trajectories)) for o in p.observables])
+
+    with common.time_limit(180):
+        run(first)
+        tr = run(second)
+    dev = float(np.max(np.abs(tr - 1.0)))
+    if dev > 1e-8:
+        return (f"{kind}: a run with the user-defined operator Z (named '{args.get('name', 'custom')}') on |000> under diagonal dynamics must report <Z_i> = 1 in every "
+                f"trajectory; after an earlier run whose noise model carried ANOTHER operator under the same name, strength and time step it reports values down to "
+                f"{float(np.min(tr)):.6f} (deviation {dev:.3e}): the run depends on the run before it")
+    return None
+
+
 def real_oracle(args, notes=None):
     from qiskit import QuantumCircuit
 
@@ -672,6 +714,18 @@ def search(ctx):
         ctx.count("real_" + a["kind"])
         if why:
             ctx.violation("real:" + a["kind"], why, {"oracle": "real", "args": a})
+    for a in (dict(kind="analog", order=2), dict(kind="analog", order=1, name="my_channel"), dict(kind="strong")):
+        try:
+            why = same_name_oracle(a)
+        except common.HardTimeout:
+            ctx.notes.append(f"same-name oracle timed out {a}")
+            continue
+        except Exception as e:  # noqa: BLE001
+            why = f"simulator.run raised {type(e).__name__}: {e}"
+        ctx.case(nontrivial_key=("same-name", str(a)))
+        ctx.count("same_name_custom_operators")
+        if why:
+            ctx.violation("same-name:" + a["kind"], why, {"oracle": "same-name", "args": a})
     pool_search(ctx)
 
 
@@ -695,6 +749,8 @@ def pool_search(ctx):
 
 def replay(ctx, data):
     rp = data.get("replay", data)
+    if rp.get("oracle") == "same-name":
+        return same_name_oracle(rp["args"])
     if rp.get("oracle") == "refused":
         i = refused_then_run(rp["class"], rp["n"], rp["noisy"], rp["refusals"])
         fresh = rp["n"] if rp["noisy"] else 1
